@@ -24,8 +24,11 @@ VERIF = Path(__file__).resolve().parents[2]
 REPO = Path(os.environ.get("VERIF_REPO", "/repo"))
 COQ = VERIF / "coq"
 BUILD = VERIF / "build"
-EVIDENCE = VERIF / "evidence"
-REPLAYS = VERIF / "replays"
+# VERIF_SCRATCH=<tag>: development runs (e.g. against a mutated scratch worktree given by VERIF_REPO) keep their build
+# directory, evidence and replays apart from the registered ones
+SCRATCH = os.environ.get("VERIF_SCRATCH", "")
+EVIDENCE = (BUILD / f"scratch.{SCRATCH}" / "evidence") if SCRATCH else VERIF / "evidence"
+REPLAYS = (BUILD / f"scratch.{SCRATCH}" / "replays") if SCRATCH else VERIF / "replays"
 GUARD = "SYMPLYPHYSICS_VERIF"
 PYTHON = "/venv/bin/python"
 
@@ -63,7 +66,7 @@ class Ctx:
 
     def __post_init__(self) -> None:
         self.rng = random.Random(self.seed)
-        self.build = BUILD / self.prop
+        self.build = BUILD / (f"{self.prop}.{SCRATCH}" if SCRATCH else self.prop)
         if self.build.exists():
             shutil.rmtree(self.build)
         self.build.mkdir(parents=True)
